@@ -49,9 +49,10 @@ class EngineProp(Prop):
         return ["--seed", str(seed), "--n", str(n), "--mode", self.mode] + list(extra)
 
     def shards(self, tier, seed):
+        corpus = ["--corpus", os.path.join(core.VERIF, "corpus", "C01")]   # regression inputs, run first by shard 0
         if tier == "quick":
-            return [self._args(seed, 20) for _ in range(16)]
-        out = [self._args(seed, 375) for _ in range(16)]
+            return [self._args(seed, 20, corpus if k == 0 else ()) for k in range(16)]
+        out = [self._args(seed, 375, corpus if k == 0 else ()) for k in range(16)]
         for g in (1, 2, 16):
             out.append(self._args(seed + 1000 + g, 200, ["--gomaxprocs", str(g)]))
         return out
